@@ -1,0 +1,32 @@
+// Copyright 2026 Dolthub, Inc.
+//
+// Licensed under the Apache License, Version 2.0 (the "License");
+// you may not use this file except in compliance with the License.
+// You may obtain a copy of the License at
+//
+//     http://www.apache.org/licenses/LICENSE-2.0
+//
+// Unless required by applicable law or agreed to in writing, software
+// distributed under the License is distributed on an "AS IS" BASIS,
+// WITHOUT WARRANTIES OR CONDITIONS OF ANY KIND, either express or implied.
+// See the License for the specific language governing permissions and
+// limitations under the License.
+
+//go:build !verif
+
+// Package verifhook provides named instrumentation points for external runtime
+// verification harnesses. Without the "verif" build tag every function is an
+// empty, inlinable no-op.
+package verifhook
+
+// Enabled reports whether hooks are compiled in.
+const Enabled = false
+
+// At marks a named point. No-op without the verif build tag.
+func At(point string) {}
+
+// AtErr marks a named point at which an error can be injected. No-op without the verif build tag.
+func AtErr(point string) error { return nil }
+
+// Emit reports an observation. No-op without the verif build tag.
+func Emit(point string, kv ...any) {}
